@@ -50,6 +50,10 @@ CLAIMED = {
     text="Decides each protocol's reply-marker gate and that the responder's own output carries the marker: ARP op 2, ICMP type 0, ICMPv6 types 129/136 have no arm and replies are reachable only through the request values; all 512 TCP flag values: SYN|ACK, RST and every RST-bearing / SYN+ACK set without PSH|ACK select drop arms; STUN replies lie behind class==0 and method==1 and the response is written with class 2; SMB1/SMB2 payload dissectors are created only behind (flags & 0x80/0x1) clear, the payload slot has no other writer and the header repl() builds nothing without it; DNS replies lie behind header.QR==0 (QR = bit 15 of the flags word) and the response header sets QR=1; the two ONC-RPC signatures contain the literal message type 0 and the reply header starts with message type 1.",
     note="Not decided: the 'at most two replies' bound for messages that are simultaneously a reply of X and a valid request of another protocol Y, and the SSH/Gh0st self-similar exchanges (not in the statement's list).",
     technique="must-pass-through gates + constant extraction + exhaustive flag table on MIR", ref="§4 C12"),
+ 'C01': dict(
+    text="Inventories every abort site (MIR Assert terminators, panicking entry points, unwrap/expect, and a table of may-panic APIs: indexing/slicing, byteorder reads, pnet payload fills) in all functions reachable from reply() - log-macro arguments and both Logger impls included, so code that only runs at higher verbosity is covered - and discharges each by a structural rule: constant conditions; unwrap origin typing (established ClientInfo field via an interprocedural must-set typestate, total packet constructors whose buffer contains minimum_packet_size as an additive term, masked conversions, constant inputs, environment-only failures; a fallible parser result is a violation); guard dominance with no intervening write for bounds, cursors (variable based), x-1, and constant ranges under len tests; type-range and allocation-size arithmetic; match-arm pinning by evaluating the arm's values; counter fields. Whatever is left must appear in the reviewed inventory rules/c01_vetted.json (keys without line numbers, one reason each); a site neither discharged nor vetted is a violation. Also: no lock re-entry from the get_tcb callback. Thorough tier repeats the analysis on release MIR (overflow checks off).",
+    note="About a quarter of the sites (parser-state / automaton-table invariants, size bounds that rest on the 4096-byte capture buffer) are assumed by review, not proved; the evidence separates discharged_by_rule from assumed_by_review. Loop termination, panics inside std/dependencies on valid arguments and environment failures (stdout closed, clock before 1970, OOM) are not decided.",
+    technique="abort-site inventory over the call-graph cone + guard-dominance / typestate / range discharge rules on MIR + reviewed residual", ref="§4 C01"),
 }
 
 NOT_YET = {}
